@@ -1,6 +1,7 @@
 """C08 - Error reporter contract (reporter.Handler, and how Compiler.Compile uses it)."""
 import itertools, sys
 from vlib import *
+import c08mix
 
 ID = "C08"
 COQ_FILES = ["Common/Corr.v", "Model/Reporter.v", "Proofs/Reporter.v", "Proofs/ReporterErase.v", "Props/C08.v"]
@@ -8,7 +9,7 @@ PROPS = "Props/C08.v"
 THEOREMS = ["C08_reporter_mutex", "C08_abort_latches", "C08_later_calls_return_latched",
             "C08_accept_all_invalid_source", "C08_never_abort_invalid_source", "C08_warnings_inert", "C08_warnings_erasable",
             "C08_success_iff_no_error", "C08_sub_handler_sound", "C08_no_deadlock", "C08_chain_fuel_enough",
-            "C08_run_order_reachable"]
+            "C08_run_order_reachable", "C08_compile_final"]
 AXIOMS_OK = []
 TRUSTED = ["hand-written small-step Gallina model of reporter.Handler (Model/Reporter.v): root mutex with explicit lock / "
            "unlock steps, one atomic step per sub-handler update and per Error()/ReporterError() read; sync.Mutex is "
@@ -478,6 +479,73 @@ def e2e_oracle(ctx, inp, o, twin_ok):
                       % (o.get("err_text") or o["err"]), rp)
 
 
+def run_mixed(ctx, terms, meta):
+    """Mixed requests (c08mix): files with reported errors, files that fail without anything being reported
+    (missing import, resolver error / panic, unknown requested name), clean and warning files, in every order,
+    with and without an overridden descriptor.proto (valid / broken; implicit dependency only, explicitly
+    imported, requested) x reporters {accept all, abort at k, default-like}."""
+    rng = ctx.rng
+    quick = ctx.tier == "quick"
+    specs = c08mix.pair_specs(rng, quick)
+    specs += [c08mix.random_spec(rng) for _ in range(ctx.budget(30, 600))]
+    pars = [1, 2, 4, 8]
+    runs, rmeta = [], []
+    for k, m in enumerate(specs):
+        aborts = [0, (1, 2, -1)[k % 3]] if quick else [0, 1, 2, 3, -1]
+        for j, a in enumerate(aborts):
+            for par in ([pars[(k + j) % 4]] if quick else [pars[(k + j) % 4], pars[(k + j + 2) % 4]]):
+                runs.append(c08mix.e2e_input(m, a, par, rng.range(1, 1 << 30)))
+                rmeta.append(m)
+    outs = ctx.impl("reporter", runs, shards=min(NCPU, max(1, len(runs) // 10)))
+    suspects = []
+    for inp, o, m in zip(runs, outs, rmeta):
+        ctx.count(("e2e-mix", inp["files"], inp["req"], inp["rfail"], inp["std"], inp["abort"], inp["par"], inp["yield"]),
+                  True, "e2e-mix-" + c08mix.klass(m))
+        if "crash" in o or "panic" in o or o.get("escaped_panic"):
+            ctx.violation("e2e-panic", "Compile panicked or the harness crashed", {"input": inp, "observed": o})
+            continue
+        if o.get("hang"):
+            ctx.corr_break("e2e: Compile did not return within the watchdog", inp, {"observed": o})
+            continue
+        # the oracle is run on a recorder first: an outcome that breaks a rule is confirmed by two more runs of
+        # the same input (a task nobody waits for may report in the instant between Compile's last look at the
+        # handler and the harness's snapshot of the call counters; a wrong rule in Compile fails every time)
+        probe = _Probe()
+        e2e_oracle(probe, inp, o, False)
+        if probe.keys:
+            suspects.append((inp, o, sorted(probe.keys)))
+        fc = final_class(o)
+        hk = "e2e-mix-final-%s" % ["nil", "abort", "invalid", "unreported"][fc]
+        ctx.hist[hk] = ctx.hist.get(hk, 0) + 1
+        terms.append("CE2E %d %s %d %d %d" % (max(inp["abort"], 0), coq_bool(inp["abort"] < 0), o["err_calls"], o["warn_calls"], fc))
+        meta.append((inp, o))
+    if suspects:
+        again = ctx.impl("reporter", [inp for inp, _, _ in suspects for _ in range(2)], shards=1)
+        for k, (inp, o, keys) in enumerate(suspects):
+            confirmed = set(keys)
+            for o2 in again[2 * k:2 * k + 2]:
+                probe = _Probe()
+                if not ("crash" in o2 or "panic" in o2 or o2.get("hang")):
+                    e2e_oracle(probe, inp, o2, False)
+                    confirmed &= probe.keys
+            if confirmed:
+                e2e_oracle(ctx, inp, o, False)
+            else:
+                ctx.extra["e2e_mix_unconfirmed_outcomes"] = ctx.extra.get("e2e_mix_unconfirmed_outcomes", 0) + 1
+    ctx.sample(runs[0]); ctx.sample(runs[len(runs) // 2])
+    ctx.extra["e2e_mix_requests"] = len(specs)
+    ctx.extra["e2e_mix_runs"] = len(runs)
+
+
+class _Probe:
+    """stand-in for ctx that only records which rules an outcome breaks"""
+    def __init__(self):
+        self.keys = set()
+
+    def violation(self, key, what, rp):
+        self.keys.add(key)
+
+
 # ----------------------------------------------------------------------------------------------
 HEADER = ("From Coq Require Import List Arith Bool.\nImport ListNotations.\n"
           "From PV Require Import Common.Corr Model.Reporter.\n")
@@ -529,6 +597,13 @@ def run(ctx):
                 "schedule of the model, the schedule is checked in coqc). (b) end to end: generated multi-file inputs (valid, warnings "
                 "only, invalid in several stages, import cycle, missing import) x reporter aborting at every k up to the number of "
                 "errors + 1 or never x parallelism {1,2,4,8}. distinct = distinct (program, policy, order / seed) resp. (input, policy, "
+                "parallelism); (c) mixed requests: every ordered pair of file kinds {clean, warning, error reported by the parser, "
+                "error reported by a later stage, import of a missing file, import the resolver refuses, import the resolver panics "
+                "on, requested name missing / refused / panicking} without and with an import edge, and random requests of 3-6 such "
+                "files in random order, x overridden google/protobuf/descriptor.proto {none, valid, broken in 4 ways} as implicit "
+                "dependency only / explicitly imported / requested, incl. requests whose ONLY errors are in the implicit "
+                "descriptor.proto, x reporters {accept all, abort at k, default-like (returns the reported error itself)}. "
+                "distinct = distinct (program, policy, order / seed) resp. (input, policy, "
                 "parallelism); non-trivial = at least one error or warning is handled" % maxlen)
     ins = [ops_input(p, a, t, order=o) for (p, a, t, o) in seq_cases] + \
           [ops_input(p, a, t, yield_seed=ys) for (p, a, t, ys) in conc_cases]
@@ -611,10 +686,11 @@ def run(ctx):
         fc = final_class(o)
         ctx.hist["e2e-final-%s" % ["nil", "abort", "invalid", "unreported"][fc]] = \
             ctx.hist.get("e2e-final-%s" % ["nil", "abort", "invalid", "unreported"][fc], 0) + 1
-        terms.append("CE2E %d %d %d %d" % (inp["abort"], o["err_calls"], o["warn_calls"], fc))
+        terms.append("CE2E %d false %d %d %d" % (inp["abort"], o["err_calls"], o["warn_calls"], fc))
         meta.append((inp, o))
     if runs:
         ctx.sample({k: v for k, v in runs[len(runs) // 2].items()})
+    run_mixed(ctx, terms, meta)
     mism, err = coq_eval_mismatches("cases_C08", HEADER, terms, "rep_chk", shard_size=250)
     if err:
         raise RuntimeError(err)
